@@ -1,5 +1,312 @@
-"""C10, integrate.pyx part (trapz_quad / trapz2d_points / simps2d_points) -- filled in below"""
+"""C10, integrate.pyx part: trapz_quad / trapz2d_points / simps2d_points for EVERY number of points.
+
+The real functions are executed symbolically with symbolic nx, ny (generic loops, slot counters); every emitted point is a
+tuple (x, y, alpha, beta) that depends on the loop indices.  For each monomial x^p y^q (p, q <= 1 for the trapezoid rule,
+<= 3 for Simpson's rule) the weighted sum over all emitted points is evaluated in closed form with the power-sum formulas
+(lemma below, proved by induction as polynomial identities) and compared with the exact integral over
+[xmin, xmax] x [ymin, ymax]; p = q = 0 is "the weights sum to the domain area".  beta == 1 for every point.
+"""
+import types
+from fractions import Fraction
+
+import z3
+
+from ..core import CheckerError
+from ..poly import P, normal
+from .. import kharness as K, kernel, pysym
+from ..pysym import real, integer, to_z3, Cond, compare
+from ..kernel import Slot
+
+MOD = 'compmech.integrate.integrate'
+LAB = 'compmech/integrate/integrate.pyx:'
+
+
+def F(d, n):
+    """sum_{i=0}^{n-1} i^d"""
+    n = n if isinstance(n, P) else P.const(n)
+    if d == 0:
+        return n
+    if d == 1:
+        return n * (n - 1) * Fraction(1, 2)
+    if d == 2:
+        return (n - 1) * n * (2 * n - 1) * Fraction(1, 6)
+    if d == 3:
+        return (n * (n - 1) * Fraction(1, 2)) ** 2
+    if d == 4:
+        return (n - 1) * n * (2 * n - 1) * (3 * n * n - 3 * n - 1) * Fraction(1, 30)
+    if d == 5:
+        return (n - 1) ** 2 * n * n * (2 * n * n - 2 * n - 1) * Fraction(1, 12)
+    if d == 6:
+        return (n - 1) * n * (2 * n - 1) * (3 * n ** 4 - 6 * n ** 3 + 3 * n + 1) * Fraction(1, 42)
+    raise CheckerError('power sum of degree %d' % d)
+
+
+def lemma_power_sums(led):
+    n = integer('n')
+    for d in range(7):
+        name = 'lemma(C10i): F_%d(n+1) - F_%d(n) == n^%d and F_%d(0) == 0 (induction step of the power-sum formula)' % (d, d, d, d)
+        step = normal(F(d, n + 1) - F(d, n) - (n ** d if d else P.const(1)))
+        base = normal(F(d, P.const(0)))
+        (led.ok(name, 'lemma(C10i)') if step.is_zero() and base.is_zero() else led.fail(name, 'lemma(C10i)', {'step': str(step), 'base': str(base)}))
+
+
+def poly_sum(expr, var, lo, hi):
+    """sum_{var=lo}^{hi-1} expr  for expr polynomial in var"""
+    expr = normal(expr)
+    deg = expr.degree_in(var)
+    if any(dict(m).get(var, 0) < 0 for m in expr.t):
+        raise CheckerError('summand is not polynomial in %s' % var)
+    tot = P({})
+    for d in range(deg + 1):
+        co = expr.coeff_of(var, d)
+        if co.is_zero():
+            continue
+        tot = tot + co * (F(d, hi) - F(d, lo))
+    return normal(tot)
+
+
+class FuncArr(object):
+    """1-D array of symbolic length written either through slot counters or at a loop index"""
+    def __init__(self, name, length):
+        self.name, self.length = name, length
+        self.slots = {}        # seq -> (value, conds, loopvars, line)
+        self.entries = []      # (index P, loop vars, value, conds)
+
+    def sym_store(self, interp, k, v, node):
+        if isinstance(k, Slot):
+            self.slots[k.seq] = (v, list(interp.path.conds), tuple(g.var for g in interp.generic), node.lineno)
+            return
+        k = normal(k if isinstance(k, P) else P.const(k))
+        self.entries.append((k, tuple(g.var for g in interp.generic), v if isinstance(v, P) else P.const(v),
+                             [c for c in interp.path.conds[self._base(interp):]]))
+
+    def _base(self, interp):
+        return getattr(self, 'base', 0)
+
+    def sym_load(self, interp, k, node):
+        k = normal(k if isinstance(k, P) else P.const(k))
+        for idx, lv, val, conds in self.entries:
+            vs = [a for a in idx.atoms() if a in lv]
+            if len(vs) != 1 or not normal(idx - P.atom(vs[0])).is_zero():
+                raise CheckerError('line %d: unsupported index pattern of %s' % (node.lineno, self.name))
+            v = vs[0]
+            sub = {v: k}
+            ok = True
+            for c in conds:
+                if not (isinstance(c, Cond) and v in c.atoms()):
+                    continue
+                if c.kind != 'cmp':
+                    raise CheckerError('line %d: compound store condition' % node.lineno)
+                cc = compare(c.a, c.b.subs(sub), 0)
+                if isinstance(cc, bool):
+                    if not cc:
+                        ok = False
+                        break
+                    continue
+                if not interp.truth(cc):
+                    ok = False
+                    break
+            if ok:
+                return val.subs(sub) if isinstance(val, P) else val
+        raise CheckerError('line %d: no stored value of %s matches the index %s' % (node.lineno, self.name, k.text()))
+
+    def sym_getattr(self, interp, name):
+        if name == 'shape':
+            return (self.length,)
+        raise CheckerError('attribute %s of %s' % (name, self.name))
+
+
+class LinArr(object):
+    """np.linspace(lo, hi, count): element i is lo + i (hi - lo)/(count - 1)"""
+    def __init__(self, lo, hi, count):
+        self.lo, self.hi, self.count = lo, hi, count
+
+    def sym_getattr(self, interp, name):
+        if name == 'astype':
+            return lambda *a, **k: self
+        raise CheckerError('attribute %s of a linspace array' % name)
+
+    def sym_load(self, interp, k, node):
+        k = k if isinstance(k, P) else P.const(k)
+        return self.lo + k * (self.hi - self.lo) / (self.count - 1)
+
+
+def make_interp():
+    it = K.make_interp(counters=('c', 'k'))
+    it.loop_modes[('*', '*')] = kernel.GenericLoop(counters=('c', 'k'), local=True)
+    it.slot_always |= {'c', 'k'}
+    it.builtins['PTR'] = lambda arr, *idx: arr
+    counter = [0]
+
+    def zeros(shape, dtype=None):
+        shp = shape if isinstance(shape, (tuple, list)) else (shape,)
+        counter[0] += 1
+        return FuncArr('arr%d' % counter[0], shp[0])
+    it.np.zeros = zeros
+    it.np.linspace = lambda lo, hi, n: LinArr(lo, hi, n)
+
+    def sym_mod(self, a, b, node):
+        if isinstance(a, P) and isinstance(b, int) and b > 0:
+            a = normal(a)
+            r = Fraction(0)
+            for m, c in a.t.items():
+                if c.denominator != 1:
+                    break
+                if not m:
+                    r = c
+                elif int(c) % b != 0 or not all(x in pysym.INT_ATOMS and e > 0 for x, e in m):
+                    break
+            else:
+                return int(r) % b
+        raise CheckerError('line %d: symbolic modulo %s %% %s' % (node.lineno, a, b))
+
+    def c_intdiv(self, a, b, node):
+        if isinstance(a, int) and isinstance(b, int):
+            if b == 0:
+                raise pysym.SymRaise('ZeroDivisionError', (), node)
+            q = abs(a) // abs(b)
+            return q if (a >= 0) == (b >= 0) else -q
+        if isinstance(a, P) and isinstance(b, int) and b > 0:
+            a = normal(a)
+            if all(c.denominator == 1 and int(c) % b == 0 for c in a.t.values()):
+                return a * Fraction(1, b)
+        raise CheckerError('line %d: symbolic C integer division %s / %s' % (node.lineno, a, b))
+    it.sym_mod = types.MethodType(sym_mod, it)
+    it.c_intdiv = types.MethodType(c_intdiv, it)
+    return it
+
+
+def ranges_and_conds(conds, loopvars, div_ids):
+    """per loop variable: (lo, hi, equalities, exclusions) read off the path conditions of an emission"""
+    info = {v: dict(lo=None, hi=None, eq=None, ne=[]) for v in loopvars}
+    for c in conds:
+        if id(c) in div_ids or not isinstance(c, Cond) or c.kind != 'cmp':
+            continue
+        vs = [v for v in loopvars if v in c.b.atoms()]
+        if not vs:
+            continue
+        if len(vs) != 1:
+            raise CheckerError('condition couples two loop variables: %r' % (c,))
+        v = vs[0]
+        co = c.b.coeff_of(v, 1)
+        if not co.is_const() or c.b.degree_in(v) != 1:
+            raise CheckerError('non-linear loop condition %r' % (c,))
+        k = co.const_value()
+        rest = normal(c.b - co * P.atom(v)) * (1 / k)       # v + rest  (op) 0, orientation flips with the sign of k
+        op = c.a
+        if k < 0:
+            op = {'<': '>', '<=': '>=', '>': '<', '>=': '<=', '==': '==', '!=': '!='}[op]
+        val = normal(-rest)
+        if op == '>=':
+            info[v]['lo'] = val if info[v]['lo'] is None else info[v]['lo']
+        elif op == '>':
+            info[v]['lo'] = normal(val + 1) if info[v]['lo'] is None else info[v]['lo']
+        elif op == '<':
+            info[v]['hi'] = val if info[v]['hi'] is None else info[v]['hi']
+        elif op == '<=':
+            info[v]['hi'] = normal(val + 1) if info[v]['hi'] is None else info[v]['hi']
+        elif op == '==':
+            info[v]['eq'] = val
+        elif op == '!=':
+            if not any(normal(val - w).is_zero() for w in info[v]['ne']):
+                info[v]['ne'].append(val)
+    return info
+
+
+def total(emissions, p, q, facts):
+    """sum over all emitted points of alpha * x^p * y^q"""
+    tot = P({})
+    for e in emissions:
+        term = e['alpha'] * (e['x'] ** p if p else 1) * (e['y'] ** q if q else 1)
+        term = term if isinstance(term, P) else P.const(term)
+        for v, inf in e['ranges'].items():
+            if inf['eq'] is not None:
+                term = term.subs({v: inf['eq']})
+                continue
+            if inf['lo'] is None or inf['hi'] is None:
+                raise CheckerError('loop variable %s without a range' % v)
+            s = poly_sum(term, v, inf['lo'], inf['hi'])
+            for val in inf['ne']:
+                # the excluded index lies inside the range (checked) and the exclusions are pairwise different (checked)
+                _require(facts, z3.And(to_z3(val) >= to_z3(inf['lo']), to_z3(val) < to_z3(inf['hi'])), 'excluded index %s outside its range' % val)
+                s = s - term.subs({v: val})
+            for a_, b_ in [(a_, b_) for k_, a_ in enumerate(inf['ne']) for b_ in inf['ne'][k_ + 1:]]:
+                _require(facts, to_z3(a_) != to_z3(b_), 'two excluded indices may coincide')
+            term = normal(s)
+        tot = tot + term
+    return normal(tot)
+
+
+def _require(facts, goal, what):
+    s = z3.Solver()
+    s.set('timeout', 10000)
+    for f in facts:
+        s.add(f)
+    s.add(z3.Not(goal))
+    if s.check() != z3.unsat:
+        raise CheckerError('summation side condition not provable: %s' % what)
+
+
+def run_points(fname, nx, ny, facts):
+    it = make_interp()
+    it.facts += facts
+    m = it.module(MOD)
+    f = K.kernel_func(it, MOD, fname)
+    xmin, xmax, ymin, ymax = (real(n) for n in ('xmin', 'xmax', 'ymin', 'ymax'))
+    res = it.explore(lambda: it.call(f, [xmin, xmax, nx, ymin, ymax, ny], {}))
+    if len(res) != 1 or res[0][1][0] != 'return':
+        raise CheckerError('%s: expected one returning path, got %r' % (fname, [(o[0], getattr(o[1], 'eargs', getattr(o[1], 'tname', None))) for _, o in res]))
+    xs2, ys2, alphas, betas = res[0][1][1]
+    div_ids = set(id(c) for c in it.div_conds)
+    ems = []
+    for seq in sorted(xs2.slots):
+        if not (seq in ys2.slots and seq in alphas.slots and seq in betas.slots):
+            raise CheckerError('%s: a point is not written to all four arrays' % fname)
+        x, conds, lv, line = xs2.slots[seq]
+        y, a, b = ys2.slots[seq][0], alphas.slots[seq][0], betas.slots[seq][0]
+        # conditions met later on the same path (loads of the weight tables) belong to the emission as well: take the longest
+        conds = max((arr.slots[seq][1] for arr in (xs2, ys2, alphas, betas)), key=len)
+        ems.append(dict(x=x, y=y, alpha=a, beta=b, loopvars=lv, line=line, ranges=ranges_and_conds(conds, lv, div_ids)))
+    return ems, (xs2, ys2, alphas, betas), it
+
+
+def check_rule(led, fname, degree, cases):
+    lab = LAB + fname
+    led.function(lab)
+    xmin, xmax, ymin, ymax = (real(n) for n in ('xmin', 'xmax', 'ymin', 'ymax'))
+    for tag, nx, ny, facts, npts_expected in cases:
+        ems, arrs, it = run_points(fname, nx, ny, facts)
+        name0 = '%s[%s]' % (lab, tag)
+        # beta == 1, and the number of points
+        nb = [e for e in ems if not (e['beta'] == 1 or (isinstance(e['beta'], P) and normal(e['beta'] - 1).is_zero()))]
+        (led.ok(name0 + '/betas-are-one', lab) if not nb else led.fail(name0 + '/betas-are-one', lab, {'lines': [e['line'] for e in nb]}, signature='beta'))
+        count = total([dict(e, alpha=P.const(1), x=P.const(1), y=P.const(1)) for e in ems], 0, 0, facts)
+        okc, badc = K.compare(count, npts_expected)
+        okl, _ = K.compare(arrs[0].length if isinstance(arrs[0].length, P) else P.const(arrs[0].length), npts_expected)
+        nm = name0 + '/number-of-points-equals-array-length'
+        (led.ok(nm, lab) if okc and okl else led.fail(nm, lab, {'points written': str(count), 'array length': str(arrs[0].length), 'expected': str(npts_expected)}, signature='count'))
+        for p in range(degree + 1):
+            for q in range(degree + 1):
+                got = total(ems, p, q, facts)
+                want = (xmax ** (p + 1) - xmin ** (p + 1)) * Fraction(1, p + 1) * (ymax ** (q + 1) - ymin ** (q + 1)) * Fraction(1, q + 1)
+                ok, bad = K.compare(got, want)
+                nm = name0 + '/integrates-x^%d*y^%d-exactly' % (p, q) if (p or q) else name0 + '/weights-sum-to-the-domain-area'
+                if ok:
+                    led.ok(nm, lab)
+                else:
+                    led.fail(nm, lab, {'difference': bad}, signature='rule:%d,%d' % (p, q))
+        led.solver_time('z3-feasibility', it.solver_time)
 
 
 def body(led):
-    pass
+    led.assume('C10i: np.linspace(a, b, n)[i] = a + i (b - a)/(n - 1); power-sum formulas by the induction lemma; C integer division and % on '
+               'expressions whose parity is explicit (nx = 2N or 2N - 1)')
+    lemma_power_sums(led)
+    nx, ny = integer('nx'), integer('ny')
+    base = [to_z3(real('xmax')) > to_z3(real('xmin')), to_z3(real('ymax')) > to_z3(real('ymin'))]
+    check_rule(led, 'trapz2d_points', 1, [('nx,ny>=2', nx, ny, base + [to_z3(nx) >= 2, to_z3(ny) >= 2], nx * ny)])
+    N, M = integer('N'), integer('M')
+    fN = base + [to_z3(N) >= 1, to_z3(M) >= 1]
+    check_rule(led, 'simps2d_points', 3, [('nx=2N,ny=2M', 2 * N, 2 * M, fN, (2 * N + 1) * (2 * M + 1)),
+                                          ('nx=2N-1,ny=2M-1 (rounded up)', 2 * N - 1, 2 * M - 1, fN, (2 * N + 1) * (2 * M + 1)),
+                                          ('nx=2N,ny=2M-1', 2 * N, 2 * M - 1, fN, (2 * N + 1) * (2 * M + 1))])
